@@ -630,25 +630,3 @@ fn c16_encode_imm_passthrough_wide() {
         assert!(it.next().is_none());
     });
 }
-fn small_u128(v: &BigInt) -> u128 {
-    assert!(v.sign() != num_bigint::Sign::Minus);
-    let mut it = v.iter_u64_digits();
-    let lo = it.next().unwrap_or(0) as u128;
-    let hi = it.next().unwrap_or(0) as u128;
-    assert!(it.next().is_none());
-    lo | (hi << 64)
-}
-/// Models of two num-bigint operations (third-party library, not code under verification) for
-/// the operand class `encode` uses them on: non-negative values below 2^128.
-fn model_shl(x: BigInt, rhs: u64) -> BigInt {
-    let v = small_u128(&x);
-    assert!(rhs < 64 && v < (1u128 << 64));
-    std::mem::forget(x);
-    BigInt::from(v << rhs)
-}
-fn model_bitor_assign(x: &mut BigInt, other: BigInt) {
-    let v = small_u128(x) | small_u128(&other);
-    std::mem::forget(other);
-    let old = std::mem::replace(x, BigInt::from(v));
-    std::mem::forget(old);
-}
